@@ -45,7 +45,8 @@ _Q = {"linearity_checked": 1000, "area_checked": 2000, "sign_checked": 1300, "ma
       "tail_checked:wf:det:std": 500, "tail_checked:wf:det:eom": 90, "tail_checked:seq:amp:eom": 90,
       "tail_checked:seq:det:std": 200, "modulated_sample_calls": 1400, "modulated_sample_calls_with_empty_channel": 600,
       "modulated_lengths_checked": 2200, "modulated_lengths_checked_with_bandwidth": 1100,
-      "eom_block_outputs_compared": 200, "two_channel_separations_checked": 100}
+      "eom_block_outputs_compared": 200, "two_channel_separations_checked": 100, "keep_ends_checked:eom": 100,
+      "per_atom_outputs_after_mode_change_checked": 80}
 FLOORS = {"quick": _Q, "thorough": {k: 10 * v for k, v in _Q.items()}}
 
 BW_POOL = [0.3, 0.5, 0.77, 1.3, 2.0, 4.0, 5.0, 8.0, 13.7, 20.0, 40.0, 60.0]
@@ -176,6 +177,31 @@ def case_laws(ctx, rng):
     if ox is None or oy is None or oz is None:
         return
     kind = in_kind(xs)
+    # ---- keep_ends=True (the ends are held instead of ramped from zero): same extension by one rise time of the
+    #      bandwidth in use at each end, the signal stays where it is, a held constant stays that constant -----------
+    try:
+        ok = arr(ch.modulate(x, keep_ends=True, eom=eom))
+    except Exception as e:
+        ctx.violation("modulate-raises", f"Channel.modulate(x, keep_ends=True, eom={eom}) raised {type(e).__name__}: "
+                      f"{str(e)[:200]}", f"modulate-raises:keep-ends:{type(e).__name__}")
+        return
+    ctx.count("keep_ends_checked")
+    ctx.count("keep_ends_checked:" + ("eom" if eom else "std"))
+    if len(ok) != n + 2 * tr:
+        ctx.violation("length", f"len(modulate(x, keep_ends=True, eom={eom})) = {len(ok)} for len(x) = {n}, rise time in use "
+                      f"{tr}: expected {n + 2 * tr}", "length:keep-ends:" + ("eom" if eom else "std"))
+        return
+    if n >= 1 and np.all(x == x[0]) and np.max(np.abs(ok - x[0])) > 1e-9 * (1 + abs(x[0])):
+        ctx.violation("keep-ends", f"a constant {x[0]!r} held at both ends comes out as {ok[:3]}..{ok[-3:]}",
+                      "keep-ends:constant")
+        return
+    # where the input (with held ends) is flat for three rise times around a point, both variants agree there
+    if n > 8 * tr + 2 and np.all(x[: 4 * tr + 1] == 0) and np.all(x[-(4 * tr + 1):] == 0):
+        if np.max(np.abs(ok - ox)) > 1e-6 * (1 + np.max(np.abs(x))):
+            i = int(np.argmax(np.abs(ok - ox)))
+            ctx.violation("keep-ends", f"for an input that is zero over 4 rise times at both ends, keep_ends=True differs from "
+                          f"keep_ends=False at output index {i}: {ok[i]!r} vs {ox[i]!r}", "keep-ends:interior-shifted")
+            return
     # ---- output length -------------------------------------------------------------------------
     ctx.count("length_checked")
     if len(ox) != n + 2 * tr:
@@ -442,6 +468,29 @@ def case_fall_seq(ctx, rng):
     if not eom and lead:
         check_tail(ctx, arr(sm.det), tf + fall, end, float(np.max(np.abs(xd))), "det", F.sign_pattern(xd), mode, "seq", kinds,
                    bw, tf - s["ti"], fall >= 2 * tr)
+    # ---- the same output as handed to the atom (per-target view), also after the channel went on into EOM mode: each
+    #      pulse keeps the fall time of the mode it was played in ---------------------------------------------------
+    if not eom and c.get("eom"):
+        ev = r.step({"op": "enable_eom_mode", "ch": "ch", "amp_on": gen.r6(AMAX * 0.3), "detuning_on": 0.0})
+        if ev.exc is not None:
+            ctx.count("fall_seq_setup_refused")
+            return
+        try:
+            full = sample(r.seq, modulation=True)
+            cha = arr(full.channel_samples["ch"].amp)
+            per = arr(full.to_nested_dict(all_local=True)["Local"]["ground-rydberg"]["q0"]["amp"])
+        except Exception as e:
+            ctx.violation("modulated-sample-raises", f"pulse then EOM mode: {type(e).__name__}: {str(e)[:200]}",
+                          f"modulated-sample-raises:{type(e).__name__}")
+            return
+        ctx.count("per_atom_outputs_after_mode_change_checked")
+        m = min(len(cha), len(per), tf + fall)
+        lo_ = s["ti"]  # (the per-target view starts at the pulse's start: the rise before it is not attributed)
+        if m < tf + fall or np.max(np.abs(cha[lo_:m] - per[lo_:m]), initial=0.0) > 1e-9 * (1 + np.max(np.abs(cha))):
+            i = lo_ + int(np.argmax(np.abs(cha[lo_:m] - per[lo_:m]))) if m > lo_ else 0
+            ctx.violation("fall-time", f"after enable_eom_mode the output of the earlier standard pulse handed to the atom differs "
+                          f"from the channel's at t = {i} ns: {per[i]!r} vs {cha[i]!r} (pulse ends at {tf}, accounted fall "
+                          f"time {fall})", "per-atom-output-cut-after-mode-change")
 
 
 def case_eom_blocks(ctx, rng):
